@@ -6,7 +6,7 @@
      (own small model; the labelling is an executable min-label propagation and is *opaque* to
      the theorems: what they use is that the islands are a function of the two masks.)
   2. curvature  (`SourceFinder._fit_island`): 3×3 max-filter peaks and min-filter troughs on the island's
-     window, `icurve[pmask] = −1; icurve[tmask] += 1` (repaired; the pinned tree wrote `= 1`, troughs winning).
+     window (scipy's rank filters modelled as the ring algorithm they are, NaN pixels included), `icurve[pmask] = −1; icurve[tmask] += 1` (repaired; the pinned tree wrote `= 1`, troughs winning).
   3. estimation (`SourceFinder.estimate_lmfit_parinfo`): `isnegative`, island flags, the
      "tiny island" path, the summit mask of the positive / negative branch, summits as 4-connected
      components of that mask, the `sorted(..., key = nanmax(−|x|))` order, per summit: amplitude
@@ -117,29 +117,108 @@ def findIslands (H W : Nat) (im bkg rms : Px → Option α) (seed flood : α) : 
 /-- pointwise negation of an image with blanks -/
 def negImg (im : Px → Option α) : Px → Option α := fun p => (im p).map (fun v => -v)
 
-/-! ## 2. curvature on a window -/
+/-! ## 2. curvature on a window
 
-/-- the 3×3 neighbourhood of `p` inside an `H × W` window (scipy's `reflect` boundary mode adds
-    only copies of pixels that are already in it), `p` included -/
-def nb3 (H W : Nat) (p : Px) : List Px :=
-  (p :: nbrs true p).filter (inGrid H W)
+  `scipy.ndimage.maximum_filter / minimum_filter (size=3)` are separable: a 1-D rank filter along
+  axis 0, then along axis 1 on the result, each line extended by one copy of its end values
+  (`reflect`).  The 1-D filter is the MINLIST/MAXLIST ring algorithm of `ni_filters.c`; with NaN
+  pixels (every comparison false) its output is NOT the min/max of the window — a NaN is queued,
+  never popped, and becomes the output once it reaches the front — so it is modelled as the
+  algorithm it is (`qstep`, `qrun`), generic in the comparison `rel val other`
+  (`val <= other` for the minimum, `val >= other` for the maximum).  `none` = NaN. -/
+
+section rank
+variable {V : Type}
+
+/-- drop queue entries from the back while `rel val entry` -/
+def popBack (rel : V → V → Bool) (val : V) (q : List (V × Nat)) : List (V × Nat) :=
+  (q.reverse.dropWhile (fun e => rel val e.1)).reverse
+
+/-- retire the front entry when its time is up -/
+def qretire (q : List (V × Nat)) (ll : Nat) : List (V × Nat) :=
+  match q with
+  | (v, d) :: r => if d == ll then r else (v, d) :: r
+  | [] => []
+
+/-- if the new value beats the front it becomes the only entry, else it is queued behind what it
+    does not beat -/
+def qpush (rel : V → V → Bool) (q : List (V × Nat)) (ll : Nat) (val : V) : List (V × Nat) :=
+  match q with
+  | [] => [(val, ll + 3)]
+  | (fv, fd) :: r =>
+    if rel val fv then [(val, ll + 3)] else popBack rel val ((fv, fd) :: r) ++ [(val, ll + 3)]
+
+/-- one step of the ring algorithm (filter size 3) -/
+def qstep (rel : V → V → Bool) (q : List (V × Nat)) (ll : Nat) (val : V) : List (V × Nat) :=
+  qpush rel (qretire q ll) ll val
+
+/-- feed the extended line; from `ll = 2` on the front of the queue is the output -/
+def qrun (rel : V → V → Bool) : Nat → List (V × Nat) → List V → List V
+  | _, _, [] => []
+  | ll, q, val :: rest =>
+    let q' := qstep rel q ll val
+    let tail := qrun rel (ll + 1) q' rest
+    if 2 ≤ ll then (match q' with | (v, _) :: _ => v | [] => val) :: tail else tail
+
+def lastOf : List V → V → V
+  | [], d => d
+  | x :: r, _ => lastOf r x
+
+/-- `minimum_filter1d / maximum_filter1d (size=3, mode='reflect')` -/
+def filter1d (rel : V → V → Bool) (line : List V) : List V :=
+  match line with
+  | [] => []
+  | x0 :: r => qrun rel 1 [(x0, 3)] ((x0 :: r) ++ [lastOf r x0])
+
+/-- value at `(r, c)` of a list of rows -/
+def look (blank : V) (rows : List (List V)) (p : Px) : V := (rows.getD p.1 []).getD p.2 blank
+
+/-- the separable 2-D filter: along axis 0 (columns), then along axis 1 (rows) -/
+def filter2d (rel : V → V → Bool) (blank : V) (H W : Nat) (img : Px → V) : List (List V) :=
+  let cols := (List.range W).map (fun c => filter1d rel ((List.range H).map (fun r => img (r, c))))
+  (List.range H).map (fun r => filter1d rel ((List.range W).map (fun c => look blank cols (c, r))))
+
+end rank
+
+/-- IEEE `a <= b` on possibly-blank values (false if either is NaN) -/
+def leO (a b : Option α) : Bool :=
+  match a, b with
+  | some x, some y => Cmp.le x y
+  | _, _ => false
+
+/-- IEEE `a == b` -/
+def eqO (a b : Option α) : Bool := leO a b && leO b a
+
+/-- `val >= other` -/
+def relMax (val other : Option α) : Bool := leO other val
+/-- `val <= other` -/
+def relMin (val other : Option α) : Bool := leO val other
+
+def maxFilter (H W : Nat) (img : Px → Option α) : List (List (Option α)) := filter2d relMax none H W img
+def minFilter (H W : Nat) (img : Px → Option α) : List (List (Option α)) := filter2d relMin none H W img
 
 /-- `maximum_filter(img, 3) == img` at `p` -/
-def isPeak (H W : Nat) (img : Px → α) (p : Px) : Bool :=
-  (nb3 H W p).all (fun q => Cmp.le (img q) (img p))
+def isPeak (H W : Nat) (img : Px → Option α) (p : Px) : Bool :=
+  eqO (look none (maxFilter H W img) p) (img p)
 
 /-- `minimum_filter(img, 3) == img` at `p` -/
-def isTrough (H W : Nat) (img : Px → α) (p : Px) : Bool :=
-  (nb3 H W p).all (fun q => Cmp.le (img p) (img q))
+def isTrough (H W : Nat) (img : Px → Option α) (p : Px) : Bool :=
+  eqO (look none (minFilter H W img) p) (img p)
 
-/-- `icurve[pmask] = -1; icurve[tmask] += 1` (REPAIRED: a pixel that is both a 3×3 maximum and a
-    3×3 minimum — a flat neighbourhood — gets 0) -/
-def curveAt (H W : Nat) (img : Px → α) (p : Px) : Int :=
-  (if isPeak H W img p then -1 else 0) + (if isTrough H W img p then 1 else 0)
+/-- the whole curvature map of a window: `icurve[pmask] = -1; icurve[tmask] += 1` (REPAIRED: a
+    pixel that is both a 3×3 maximum and a 3×3 minimum — a flat neighbourhood — gets 0) -/
+def curveRows (H W : Nat) (img : Px → Option α) : List (List Int) :=
+  let mx := maxFilter H W img
+  let mn := minFilter H W img
+  (List.range H).map (fun r => (List.range W).map (fun c =>
+    (if eqO (look none mx (r, c)) (img (r, c)) then -1 else 0)
+      + (if eqO (look none mn (r, c)) (img (r, c)) then (1 : Int) else 0)))
+
+def curveAt (H W : Nat) (img : Px → Option α) (p : Px) : Int := look 0 (curveRows H W img) p
 
 /-- the pinned tree's `icurve[pmask] = -1; icurve[tmask] = 1`: troughs are written last and win,
     so a flat pixel gets `+1` in the image and in its negative (kept for the negation witness) -/
-def curveAtPinned (H W : Nat) (img : Px → α) (p : Px) : Int :=
+def curveAtPinned (H W : Nat) (img : Px → Option α) (p : Px) : Int :=
   if isTrough H W img p then 1 else if isPeak H W img p then -1 else 0
 
 /-- the window `_fit_island` cuts out of the image for an island box `[xmin,xmax) × [ymin,ymax)`:
@@ -155,12 +234,21 @@ def window (imgH imgW xmin xmax ymin ymax : Nat) : Nat × Nat × Nat × Nat :=
   let c1 := Nat.min (ymax + by0) imgW
   (r0, c0, r1 - r0, c1 - c0)
 
-/-- the cropped curvature map handed to `estimate_lmfit_parinfo`, indexed by island-box pixel -/
-def islandCurve (imgH imgW xmin xmax ymin ymax : Nat) (img : Px → α) : Px → Int :=
+/-- the cropped curvature map handed to `estimate_lmfit_parinfo`, indexed by island-box pixel;
+    `img` is the background-subtracted image, `none` = NaN -/
+def islandCurve (imgH imgW xmin xmax ymin ymax : Nat) (img : Px → Option α) : Px → Int :=
   let (r0, c0, h, w) := window imgH imgW xmin xmax ymin ymax
   fun p =>
     let q : Px := (p.1 + xmin - r0, p.2 + ymin - c0)
     if inGrid h w q then curveAt h w (fun t => img (t.1 + r0, t.2 + c0)) q else 0
+
+/-- the same map as a row-major list over the island box, the filters evaluated once (driver) -/
+def islandCurveList (imgH imgW xmin xmax ymin ymax : Nat) (img : Px → Option α) : List Int :=
+  let (r0, c0, h, w) := window imgH imgW xmin xmax ymin ymax
+  let rows := curveRows h w (fun t => img (t.1 + r0, t.2 + c0))
+  (allPx (xmax - xmin) (ymax - ymin)).map (fun p =>
+    let q : Px := (p.1 + xmin - r0, p.2 + ymin - c0)
+    if inGrid h w q then look 0 rows q else 0)
 
 /-! ## 3. estimate_lmfit_parinfo -/
 
@@ -335,9 +423,10 @@ def estimate (P : Params α) (I : Island α) : Option (List (Comp α)) :=
 /-- what `_fit_island` hands to `estimate_lmfit_parinfo` for the island with box
     `[xmin,xmax) × [ymin,ymax)` and member test `mem` (island-box coordinates): the background-
     subtracted image restricted to the members, the rms box, and the cropped curvature map -/
-def mkIsland (imgH imgW xmin xmax ymin ymax : Nat) (img rms samp : Px → α) (mem : Px → Bool) : Island α :=
+def mkIsland (imgH imgW xmin xmax ymin ymax : Nat) (img : Px → Option α) (rms samp : Px → α)
+    (mem : Px → Bool) : Island α :=
   { h := xmax - xmin, w := ymax - ymin,
-    data := fun p => if mem p then some (img (p.1 + xmin, p.2 + ymin)) else none,
+    data := fun p => if mem p then img (p.1 + xmin, p.2 + ymin) else none,
     rms := fun p => rms (p.1 + xmin, p.2 + ymin),
     curve := islandCurve imgH imgW xmin xmax ymin ymax img,
     sampling := fun p => samp (p.1 + xmin, p.2 + ymin) }
